@@ -276,6 +276,74 @@ def gone_setup(base):
     return setup
 
 
+def any_setup(base):
+    """NoResidue as an invariant step for an ARBITRARY socket (connected or not): requires the invariant for sock at entry"""
+    def setup(I):
+        a = base(I)
+        self, sock = a['self'], a['sock']
+        I.assume(sock.t != I.field(self, '_sock').t, 'sock is not the listening socket')
+        I.assume(z3.Implies(z3.Not(in_clients(I, self, sock)), clean_all(I, self, sock)), 'requires NoResidue(sock): gone => Clean')
+        return a
+    return setup
+
+
+def c12_any_post(I, outcome, ctx):
+    """NoResidue preserved: whatever the handler did (including closing the connection on a fatal error half-way through), a socket
+    that is not (or no longer) connected afterwards has no buffer, close-queue, STARTTLS or poller entry"""
+    if no_escape(I, outcome):
+        return
+    cover(I, 'return')
+    a = ctx['args']
+    self, sock = a['self'], a['sock']
+    gone = z3.Not(in_clients(I, self, sock))
+    if I.st.feasible(z3.And(gone, in_clients(I, self, sock, ctx['pre']))):
+        cover(I, 'disconnected_here')
+    for lbl, f in clean(I, self, sock):
+        I.oblige('no_residue_once_disconnected.' + lbl, z3.Implies(gone, f))
+
+
+def live_replay(op_lines, what):
+    def replay(model, ob):
+        return '''
+import errno, sys
+from collections import defaultdict, deque
+from circuits.net.sockets import TCPServer
+class FakePoller:
+    def __init__(self): self._read=[]; self._write=[]
+    def isWriting(self, fd): return fd in self._write
+    def isReading(self, fd): return fd in self._read
+    def addWriter(self, src, fd): self._write.append(fd)
+    def removeWriter(self, fd): self._write.remove(fd)
+    def addReader(self, src, fd): self._read.append(fd)
+    def removeReader(self, fd): self._read.remove(fd)
+    def discard(self, fd):
+        if fd in self._read: self._read.remove(fd)
+        if fd in self._write: self._write.remove(fd)
+class FakeSock:
+    def send(self, d): raise OSError(errno.ECONNRESET, 'reset')
+    def recv(self, n): raise OSError(errno.ECONNRESET, 'reset')
+    def shutdown(self, how): pass
+    def close(self): pass
+srv = TCPServer.__new__(TCPServer)
+srv._clients=[]; srv._closeq=[]; srv._buffers=defaultdict(deque); srv._poller=FakePoller(); srv._sock=FakeSock()
+srv._Server__starttls=set(); srv._bufsize=4096
+fired=[]
+srv.fire = lambda e,*c: fired.append(e) or e
+s = FakeSock()
+srv._clients.append(s); srv._poller.addReader(srv, s)
+%s
+print('events:', [e.name for e in fired])
+res = []
+if s not in srv._clients:
+    if s in srv._buffers: res.append('_buffers retains the socket')
+    if s in srv._poller._write or s in srv._poller._read: res.append('poller retains the socket')
+    if s in srv._closeq: res.append('_closeq retains the socket')
+for r in res: print('%s:', r)
+sys.exit(1 if res else 0)
+''' % (op_lines, what)
+    return replay
+
+
 def late_replay(op):
     def replay(model, ob):
         return '''
@@ -381,7 +449,8 @@ def s_srv_close_summary(I, recv, args, kw):
         I.st.write_field(self.t, '_sock', NONE)
     st = I.field(self, '_Server__starttls')
     I.st.write_field(self.t, '_Server__starttls', VSet(Ref, z3.Store(st.arr, sock.t, False)))
-    # the verified contract leaves _closeq alone: Clean needs the caller to have removed it (see _on_write) or it not to be there
+    cq = I.field(self, '_closeq')
+    I.st.write_field(self.t, '_closeq', VBag(Ref, z3.Store(cq.arr, sock.t, 0)))   # clean_after_close.not_in_closeq (proved on _close)
     I.st.write_field(sock.t, 'G_closed', VBool(True))
     I.st.ghost.setdefault('FIRED', []).append(VCons('disconnect', [sock]))
     return NONE
@@ -555,6 +624,13 @@ SPECS.append(FucSpec('C12', 'circuits/net/sockets.py', 'Server._on_write', gone_
                      fields=SRV_FIELDS, calls=dict(BASE_CALLS, **{'self._write': s_srv__write_summary, 'self._close': s_srv_close_summary}),
                      cover=['return'], name='Server._on_write[late]', replay=late_replay('srv._on_write(s)'),
                      clause='a late writability event for a socket that is gone leaves nothing behind'))
+SPECS.append(FucSpec('C12', 'circuits/net/sockets.py', 'Server._on_write', any_setup(srv_on_write_setup), c12_any_post,
+                     fields=SRV_FIELDS, calls=dict(BASE_CALLS, **{'self._write': s_srv__write_summary, 'self._close': s_srv_close_summary}),
+                     cover=['return', 'disconnected_here'], name='Server._on_write[any socket]',
+                     replay=live_replay("srv.write(s, b'hello')\nsrv._on_write(s)      # send fails fatally: error + _close inside _write",
+                                        'after a fatal send error in _on_write'),
+                     clause='NoResidue preserved by _on_write for every socket: also when _write closes the connection on a fatal '
+                            'send error nothing is re-created for it'))
 
 
 # ----------------------------------------------------------------------------- Server.close(sock)
@@ -588,6 +664,10 @@ SPECS.append(FucSpec('C12', 'circuits/net/sockets.py', 'Server.close', gone_setu
                      fields=SRV_FIELDS, calls=dict(BASE_CALLS, **{'self._close': s_srv_close_summary}), cover=['return'],
                      name='Server.close[late]', replay=late_replay('srv.close(s)'),
                      clause='a close addressed to a socket that is already gone leaves no buffer or close-queue entry behind'))
+SPECS.append(FucSpec('C12', 'circuits/net/sockets.py', 'Server.close', any_setup(srv_close_handler_setup), c12_any_post,
+                     fields=SRV_FIELDS, calls=dict(BASE_CALLS, **{'self._close': s_srv_close_summary}), cover=['return', 'disconnected_here'],
+                     name='Server.close[any socket]', replay=live_replay('srv.close(s)', 'after close(sock)'),
+                     clause='NoResidue preserved by close(sock) for every socket'))
 
 
 # ----------------------------------------------------------------------------- Server._read / _on_accept_done / _on_disconnect
@@ -642,6 +722,11 @@ SPECS.append(FucSpec('C12', 'circuits/net/sockets.py', 'Server._read', srv_read_
                      cover=['data', 'eof', 'recv_error'],
                      clause='_read: one recv; data => exactly one read(sock, data) with those bytes; empty => close(sock); error => '
                             'error + _close; sockets that are not connected are ignored'))
+SPECS.append(FucSpec('C12', 'circuits/net/sockets.py', 'Server._read', any_setup(srv_read_setup), c12_any_post, fields=SRV_FIELDS,
+                     calls=dict(BASE_CALLS, **{'self._close': s_srv_close_summary, 'self.close': s_srv_close_handler_summary}),
+                     cover=['return', 'disconnected_here'], name='Server._read[any socket]',
+                     replay=live_replay('srv._read(s)      # recv fails fatally: error + _close', 'after a fatal recv error in _read'),
+                     clause='NoResidue preserved by _read for every socket (fatal recv error closes the connection)'))
 
 
 def srv_accept_setup(I):
